@@ -178,3 +178,26 @@ def c15(tier, seed):
                valid_layout_histories=fr['histories'], outcomes=outcomes, samples=sample, exhaustive=False)
     return errors, viols, cov, 'model_checking', ['only open_volume is judged on invalid input (operations on a volume opened from a damaged boot sector are out of scope)',
                                                   'the independent formatter is cross-checked against Mount.Layout on every image'], time.time() - t0
+
+
+def seekvec(tier, seed):
+    """C01: seek arithmetic on files of every size (vectors from the real File API validated against Seek.tla); cached"""
+    key = cache_key('seek', tier, seed)
+    wd = os.path.join(OUT, 'cache', key)
+    rp = os.path.join(wd, 'seek-result.json')
+    if os.path.exists(rp):
+        return json.load(open(rp))
+    t0 = time.time()
+    build_harness()
+    os.makedirs(wd, exist_ok=True)
+    vec = os.path.join(wd, 'vectors.ndjson')
+    r = sh([VH, 'seek', vec, tier, str(seed)])
+    if r.returncode != 0:
+        raise ToolError('vh seek failed: ' + r.stdout[-2000:])
+    traces, n = split_lines(vec, 6, wd, 'seekvec')
+    results = validate('SeekTrace.tla', 'SeekTrace.cfg', traces, 'seek')
+    errors, viols, states, gen = collect(results)
+    lines = open(vec).read().splitlines()
+    res = dict(errors=errors, viols=viols, vectors=n, states=states, generated=gen, wall=time.time() - t0, sample=[json.loads(lines[i]) for i in (3, len(lines) // 2, len(lines) - 2)])
+    json.dump(res, open(rp, 'w'))
+    return res
